@@ -86,6 +86,11 @@ func run(cmd string, args []string) error {
 		report(map[string]any{"cases": n})
 
 		return err
+	case "keystore":
+		n, err := c16.RunKeyStores(fx, *cases, *tracePath)
+		report(map[string]any{"files": n})
+
+		return err
 	case "stress":
 		st, err := c16.RunStress(fx, c16.StressOptions{
 			Trace: *tracePath, Dir: *dir, Seed: *seed, Runs: *runs, Reloads: *reloads, Workers: *workers,
